@@ -23,7 +23,7 @@ from pyvc.lib.c16_models import Cx, cis, r_term, abs2
 from lemmas import c16_rt as RT
 from .common import registry, forall, implies, AND, OR, NOT
 
-LEVEL = "proof"
+LEVEL = "other"  # open known findings: some obligations are refuted on the current tree, so "every obligation discharged" does not hold (see known_findings.jsonl)
 PU = "quantem.diffractive_imaging.ptycho_utils"
 PB = "quantem.diffractive_imaging.ptychography_base"
 PT = "quantem.diffractive_imaging.ptychography"
